@@ -389,3 +389,152 @@ class _Reqs:
 for _n in dir(_Reqs):
     if _n.startswith("req_"):
         setattr(Checker, _n, getattr(_Reqs, _n))
+
+
+class _Reqs2:
+    def _valid_before_spawn(self):
+        """workers are spawned only on the is_valid_config() == true edge"""
+        P, W = self.P, self.W
+        main = P.fns.get("roughenough_server::main")
+        if main is None:
+            return False, "server main missing"
+        mev = W.ev(main.path)
+        MIN = flow.must_facts(main, mev)
+        n = 0
+        for bb, t in main.calls():
+            if callee_name(t["fn"].get("path", "")) == "spawn" and "thread" in t["fn"].get("path", ""):
+                n += 1
+                rels = flow.rel_facts_at(MIN, bb)
+                if not any(r[0] == "True" and is_call(r[1], "is_valid_config") for r in rels):
+                    return False, "a thread is spawned without is_valid_config() being true"
+        # Server::new is only reachable from the spawned closure(s)
+        cs = {c[0] for c in P.callers(SERVER + "::new") if not c[0].startswith("roughenough::")}
+        return n >= 1, "threads are spawned only after is_valid_config() returned true"
+
+    def _range_ok(self, key):
+        import importlib
+        from framework import Ctx
+        mod = importlib.import_module("rules.C16")
+        if not hasattr(self, "_c16"):
+            c = Ctx("C16", self.P, self.ctx.repo, "quick", self.ctx.feature)
+            mod.run(c)
+            self._c16 = c
+        bad = [i for i in self._c16.instances if not i["ok"] and i["rule"] == "range-checks" and key in i["key"]]
+        return (not bad), (bad[0]["detail"] if bad else "C16 range check for %s holds" % key)
+
+    def req_fault_percentage_validated(self):
+        ok, why = self._valid_before_spawn()
+        if not ok:
+            return ok, why
+        ok, why = self._range_ok("fault_percentage")
+        if not ok:
+            return ok, why
+        P, W = self.P, self.W
+        for (cp, cbb) in P.callers("roughenough::grease::Grease::new"):
+            a = W.ev(cp).call_args(cbb)[0]
+            if not (is_call(a) and a[1].endswith("ServerConfig::fault_percentage")):
+                return False, "Grease::new is called with %s" % values.fmt(a)
+        return True, "fault_percentage <= 50 validated before spawn; Grease::new(config.fault_percentage())"
+
+    def req_worker_threads_named(self):
+        P, W = self.P, self.W
+        main = P.fns.get("roughenough_server::main")
+        mev = W.ev(main.path)
+        ok = False
+        for bb, t in main.calls():
+            if callee_name(t["fn"].get("path", "")) == "spawn" and "Builder" in t["fn"].get("path", ""):
+                b = mev.call_args(bb)[0]
+                named = values.contains(b, lambda s: is_call(s) and strip_generics(s[1]).endswith("Builder::name")) or (is_call(b) and strip_generics(b[1]).endswith("Builder::name"))
+                if not named:
+                    return False, "a worker thread is spawned without a name"
+                ok = True
+        callers = {c[0] for c in P.callers(SERVER + "::new")}
+        if not all(c.startswith("roughenough_server::") for c in callers):
+            return False, "Server::new has callers outside the server binary's worker entry: %s" % sorted(callers)
+        # std::thread::spawn (unnamed) must not be used for workers
+        for bb, t in main.calls():
+            if strip_generics(t["fn"].get("path", "")) == "std::thread::spawn":
+                return False, "an unnamed thread is spawned"
+        return ok, "every thread is created with thread::Builder::name(..)"
+
+    def req_interface_parse_validated(self):
+        P, W = self.P, self.W
+        ok, why = self._valid_before_spawn()
+        if not ok:
+            return ok, why
+        iv = P.fns.get("roughenough::config::is_valid_config")
+        ev = W.ev(iv.path)
+        IN = flow.must_facts(iv, ev)
+        called = [bb for bb, t in iv.calls() if t["fn"].get("trait_method") == "udp_socket_addr" or strip_generics(t["fn"].get("path", "")).endswith("udp_socket_addr")]
+        if not called:
+            return False, "is_valid_config does not try udp_socket_addr()"
+        # its Err arm clears the flag: there is a `flag = false` block under discr(udp_socket_addr()) == Err
+        found = False
+        for bl in iv.blocks:
+            for i, st in enumerate(bl.stmts):
+                if st["k"] == "assign" and st["rv"]["k"] == "use" and "c" in st["rv"]["op"] and values.const_term(st["rv"]["op"]["c"]) == ("int", 0) and iv.locals[st["dst"]["l"]]["ty"] == "bool":
+                    rels = flow.rel_facts_at(IN, bl.idx)
+                    if any(isinstance(r[1], tuple) and r[1][0] == "discr" and is_call(r[1][1]) and "udp_socket_addr" in r[1][1][1] for r in rels):
+                        found = True
+        if not found:
+            return False, "a failing udp_socket_addr() does not invalidate the configuration"
+        return True, "is_valid_config rejects configurations whose interface:port does not parse"
+
+    def req_health_listener_reuse_port(self):
+        P, W = self.P, self.W
+        fn = P.fns.get(SERVER + "::bind_health_check_listener")
+        if fn is None:
+            return False, "bind_health_check_listener missing"
+        ev = W.ev(fn.path)
+        for bb, t in fn.calls():
+            if callee_name(t["fn"].get("path", "")) == "bind":
+                recv = ev.call_args(bb)[0]
+                rp = [s for s in values.subterms(recv) if is_call(s) and callee_name(s[1]) == "reuse_port"]
+                if rp and all(s[2][1] == ("int", 1) for s in rp):
+                    return True, "health check listener is bound with reuse_port(true)"
+        return False, "health check listener is bound without reuse_port(true)"
+
+    def req_load_seed_plaintext_ok(self):
+        P, W = self.P, self.W
+        ls = P.fns.get("roughenough::kms::load_seed")
+        ev = W.ev(ls.path)
+        IN = flow.must_facts(ls, ev)
+        for bl in ls.blocks:
+            for i, st in enumerate(bl.stmts):
+                if st["k"] == "assign" and st["dst"]["l"] == 0 and st["rv"]["k"] == "agg" and st["rv"].get("vname") == "Ok":
+                    t = ev.rvalue(st["rv"], (bl.idx, i))
+                    if is_call(t[2][0]) and t[2][0][1].endswith("ServerConfig::seed"):
+                        return True, "the plaintext arm returns Ok(config.seed())"
+        return False, "load_seed has no Ok(config.seed()) arm"
+
+    def req_seed_length_validated(self):
+        ok, why = self._valid_before_spawn()
+        if not ok:
+            return ok, why
+        ok, why = self._range_ok("seed")
+        if not ok:
+            return ok, why
+        return self.check("load_seed_plaintext_ok")
+
+    def req_config_getters_pure(self):
+        P, W = self.P, self.W
+        n = 0
+        for im in P.impls:
+            if im.get("trait") == "roughenough::config::ServerConfig":
+                for name, p in im["methods"].items():
+                    fn = P.fns.get(p)
+                    if fn is None or name == "udp_socket_addr":
+                        continue
+                    n += 1
+                    for bb, t in fn.calls():
+                        q = strip_generics(t["fn"].get("path", ""))
+                        if not (values.is_transparent(t["fn"].get("path", ""), t["fn"].get("trait"), t["fn"].get("trait_method")) or callee_name(q) in ("clone", "as_ref", "deref", "to_owned")):
+                            return False, "%s calls %s" % (p, q)
+                    if fn.locals[1]["ty"].startswith("&mut"):
+                        return False, "%s takes &mut self" % p
+        return n >= 20, "%d getters are plain field reads" % n
+
+
+for _n in dir(_Reqs2):
+    if _n.startswith("req_") or _n.startswith("_valid") or _n.startswith("_range"):
+        setattr(Checker, _n, getattr(_Reqs2, _n))
